@@ -16,6 +16,7 @@ import (
 	"math"
 	"strconv"
 	"strings"
+	"sync"
 
 	"github.com/pinealctx/neptune/cache"
 	"github.com/pinealctx/neptune/cache/tiny"
@@ -88,15 +89,32 @@ func (k Key) String() string {
 
 // sv is the value stored in the caches: an identity (unique per storing call of
 // a case) and the size it reports to cache.LRUCache.
-type sv struct{ id, sz int }
+type sv struct {
+	id, sz int
+	isNil  bool // tiny caches only: store the untyped nil instead (a legal interface{} value there)
+}
 
 func (v sv) Size() int { return v.sz }
 
+// nilID is the identity of a nil value (tiny caches take any interface{}).
+const nilID = -2
+
 func valID(v any) int {
+	if v == nil {
+		return nilID
+	}
 	if s, ok := v.(sv); ok {
 		return s.id
 	}
 	return -1 // a value nobody stored
+}
+
+// tinyVal is what a tiny cache is given for v.
+func tinyVal(v sv) any {
+	if v.isNil {
+		return nil
+	}
+	return v
 }
 
 const (
@@ -151,6 +169,7 @@ type Op struct {
 	Size int    `json:"size,omitempty"` // item size of a storing call
 	Cap  int64  `json:"cap,omitempty"`  // SetCapacity argument
 	Y    bool   `json:"y,omitempty"`    // concurrent parts: yield the processor before the call
+	Nil  bool   `json:"nil,omitempty"`  // storing call on a tiny cache: the value is nil
 }
 
 // MarshalJSON leaves out the key of calls that take none (written by hand: it
@@ -176,6 +195,9 @@ func (o Op) MarshalJSON() ([]byte, error) {
 	}
 	if o.Y {
 		b = append(b, `,"y":true`...)
+	}
+	if o.Nil {
+		b = append(b, `,"nil":true`...)
 	}
 	return append(b, '}'), nil
 }
@@ -433,6 +455,9 @@ func (m *ideal) enforce(justStored int) []int {
 // eviction counter (alt) or not.
 func (m *ideal) apply(op Op, id int, alt bool) Out {
 	m.info = stepInfo{}
+	if op.Nil && m.unit {
+		id = nilID // a tiny cache stores the nil it was given
+	}
 	var o Out
 	switch op.K {
 	case kSet, kSagr:
@@ -556,15 +581,54 @@ func hitID(v any, ok bool) int {
 
 type cacheFull struct {
 	cacheFacade
-	c *cache.LRUCache
+	c    *cache.LRUCache
+	kept *keptLists
+}
+
+// keptLists remembers the removed-lists SetAndGetRemoved handed out: they belong to the caller, so they must
+// still hold the same values after any number of later calls.
+type keptLists struct {
+	mu    sync.Mutex
+	items []keptList
+}
+
+type keptList struct {
+	n    int
+	at   func(i int) int // reads the retained slice again
+	then []int           // what it held when it was returned
+}
+
+func (k *keptLists) keep(n int, at func(i int) int, then []int) {
+	if k != nil && n > 0 {
+		k.mu.Lock()
+		k.items = append(k.items, keptList{n, at, append([]int(nil), then...)})
+		k.mu.Unlock()
+	}
+}
+
+// changed returns a description of the first retained list that no longer holds what it held, or "".
+func (k *keptLists) changed() string {
+	if k == nil {
+		return ""
+	}
+	for j, it := range k.items {
+		for i := 0; i < it.n; i++ {
+			if now := it.at(i); now != it.then[i] {
+				return fmt.Sprintf("the %d. non-empty removed-list returned by SetAndGetRemoved held values %v when it was returned; after later calls its element %d is value %d", j+1, it.then, i, now)
+			}
+		}
+	}
+	return ""
 }
 
 func (a cacheFull) SetIfAbsent(k any, v sv) { a.c.SetIfAbsent(k, v) }
 func (a cacheFull) SetAndGetRemoved(k any, v sv) []int {
 	var ids []int
-	for _, r := range a.c.SetAndGetRemoved(k, v) {
+	raw := a.c.SetAndGetRemoved(k, v)
+	for _, r := range raw {
 		ids = append(ids, valID(r))
 	}
+	a.kept.keep(len(raw), func(i int) int { return valID(raw[i]) }, ids)
 	return ids
 }
 func (a cacheFull) Clear()              { a.c.Clear() }
@@ -597,20 +661,23 @@ type tinyFacade struct{ f tiny.LRU }
 func (a tinyFacade) Get(k any) (int, bool)  { v, ok := a.f.Get(k); return hitID(v, ok), ok }
 func (a tinyFacade) Peek(k any) (int, bool) { v, ok := a.f.Peek(k); return hitID(v, ok), ok }
 func (a tinyFacade) Exist(k any) bool       { return a.f.Exist(k) }
-func (a tinyFacade) Set(k any, v sv)        { a.f.Set(k, v) }
+func (a tinyFacade) Set(k any, v sv)        { a.f.Set(k, tinyVal(v)) }
 func (a tinyFacade) Delete(k any) bool      { return a.f.Delete(k) }
 
 type tinyFull struct {
 	tinyFacade
-	c *tiny.LRUCache
+	c    *tiny.LRUCache
+	kept *keptLists
 }
 
-func (a tinyFull) SetIfAbsent(k any, v sv) { a.c.SetIfAbsent(k, v) }
+func (a tinyFull) SetIfAbsent(k any, v sv) { a.c.SetIfAbsent(k, tinyVal(v)) }
 func (a tinyFull) SetAndGetRemoved(k any, v sv) []int {
 	var ids []int
-	for _, r := range a.c.SetAndGetRemoved(k, v) {
+	raw := a.c.SetAndGetRemoved(k, tinyVal(v))
+	for _, r := range raw {
 		ids = append(ids, valID(r))
 	}
+	a.kept.keep(len(raw), func(i int) int { return valID(raw[i]) }, ids)
 	return ids
 }
 func (a tinyFull) Clear()              { a.c.Clear() }
@@ -659,7 +726,7 @@ func newFull(impl string, capa int64, viaFacade bool) (fullTarget, string) {
 		} else {
 			c = cache.NewLRUCache(capa)
 		}
-		return cacheFull{cacheFacade{c}, c}, ""
+		return cacheFull{cacheFacade{c}, c, &keptLists{}}, ""
 	case implTiny:
 		var c *tiny.LRUCache
 		if viaFacade {
@@ -670,7 +737,7 @@ func newFull(impl string, capa int64, viaFacade bool) (fullTarget, string) {
 		} else {
 			c = tiny.NewLRUCache(capa)
 		}
-		return tinyFull{tinyFacade{c}, c}, ""
+		return tinyFull{tinyFacade{c}, c, &keptLists{}}, ""
 	}
 	return nil, "unknown implementation " + impl
 }
@@ -713,7 +780,7 @@ func doReal(t target, op Op, id int) (o Out, supported bool) {
 	}
 	switch op.K {
 	case kSet:
-		t.Set(k, sv{id, op.Size})
+		t.Set(k, sv{id, op.Size, op.Nil})
 		return o, true
 	case kGet:
 		o.Val, o.OK = t.Get(k)
@@ -734,9 +801,9 @@ func doReal(t target, op Op, id int) (o Out, supported bool) {
 	}
 	switch op.K {
 	case kSia:
-		f.SetIfAbsent(k, sv{id, op.Size})
+		f.SetIfAbsent(k, sv{id, op.Size, op.Nil})
 	case kSagr:
-		o.Removed = f.SetAndGetRemoved(k, sv{id, op.Size})
+		o.Removed = f.SetAndGetRemoved(k, sv{id, op.Size, op.Nil})
 	case kClear:
 		f.Clear()
 	case kSetCap:
@@ -947,6 +1014,20 @@ func ExecSeq(c SeqCase) *vkit.Result {
 			return res
 		}
 	}
+	// removed-lists handed out earlier still hold what they held
+	var kl *keptLists
+	switch f := t.(type) {
+	case cacheFull:
+		kl = f.kept
+	case tinyFull:
+		kl = f.kept
+	}
+	if msg := kl.changed(); msg != "" {
+		return res.Failf(c.Impl+"/SetAndGetRemoved/retained", "%s", msg)
+	}
+	if kl != nil && len(kl.items) > 1 {
+		res.Class("removed-lists retained and re-checked")
+	}
 	// StatsJSON is the same four numbers
 	var js map[string]int64
 	if err := json.Unmarshal([]byte(t.StatsJSON()), &js); err != nil {
@@ -1093,6 +1174,9 @@ func genSeq(impl string) func(t *rapid.T) SeqCase {
 		}
 		pool := genPool(t, universe, 1, 8)
 		c.Ops = history(t, opGen(seqKinds, pool, genProfile(t), c.Cap, 12), maxOps(), "ops")
+		if impl == implTiny {
+			sprinkleNil(t, c.Ops)
+		}
 		return c
 	}
 }
@@ -1358,7 +1442,24 @@ func GenWide(t *rapid.T) WideCase {
 	pool := genWidePool(t, c.XHash, c.Shards, 2, 5, 3)
 	share := perShardCap(c.Cap, c.Shards)
 	c.Ops = history(t, opGen(wideKinds, pool, genProfile(t), share, 12), maxOps()+10, "ops")
+	if c.Impl == implWTiny {
+		sprinkleNil(t, c.Ops)
+	}
 	return c
+}
+
+// sprinkleNil lets some storing calls of a tiny cache store nil (values are interface{} there, nil included): in
+// half of the cases none, otherwise one storing call in four.
+func sprinkleNil(t *rapid.T, ops []Op) {
+	if !rapid.Bool().Draw(t, "nilvalues") {
+		return
+	}
+	for i := range ops {
+		switch ops[i].K {
+		case kSet, kSia, kSagr:
+			ops[i].Nil = rapid.IntRange(0, 3).Draw(t, "nil") == 0
+		}
+	}
 }
 
 var PartWide = &vkit.Part[WideCase]{
